@@ -51,6 +51,7 @@ def Instr.mapP (φ ψ : Pos → Pos) : Instr → Instr
   | .setFinal => .setFinal
   | .loop h t => .loop h t
   | .globalDecl ns => .globalDecl ns
+  | .nonlocalDecl ns => .nonlocalDecl ns
   | .addReturn => .addReturn
   | .addImport n => .addImport n
 
